@@ -17,6 +17,7 @@ def check(A):
         R.upgrade_refusal_harmless_rule(A, fl, 'C06')
         R.admission_rules(A, fl, 'C06', parts=('sinks',))
     R.driver_handler_rule(A, 'C06')
+    R.upgrades_rule(A, 'C06')
     from . import clirules as C
     for cf in C.CFLAVOURS:
         C.connect_websocket_rules(A, cf, 'C06', probe_rule='C06')
